@@ -163,6 +163,7 @@ class OpenDocument:
     Example of use: d = OpenDocument(mimetype); fd.write(d.xml())
     """
     thumbnail = None
+    thumbnail_mediatype = u''
 
     def __init__(self, mimetype, add_generator=True):
         """
@@ -715,7 +716,7 @@ class OpenDocument:
         # Write the thumbnail
         if self.thumbnail is not None:
             self.manifest.addElement(manifest.FileEntry(fullpath=u"Thumbnails/", mediatype=u''))
-            self.manifest.addElement(manifest.FileEntry(fullpath=u"Thumbnails/thumbnail.png", mediatype=u''))
+            self.manifest.addElement(manifest.FileEntry(fullpath=u"Thumbnails/thumbnail.png", mediatype=self.thumbnail_mediatype))
             zi = zipfile.ZipInfo(u"Thumbnails/thumbnail.png", self._now)
             zi.compress_type = zipfile.ZIP_DEFLATED
             zi.external_attr = UNIXPERMS
@@ -1075,6 +1076,7 @@ def load(odffile):
             doc.addPicture(mvalue['full-path'], mvalue['media-type'], z.read(mentry))
         elif mentry == u"Thumbnails/thumbnail.png":
             doc.addThumbnail(z.read(mentry))
+            doc.thumbnail_mediatype = mvalue['media-type']
         elif mentry in (u'settings.xml', u'meta.xml', u'content.xml', u'styles.xml'):
             pass
         elif mentry in (u"/", u"Thumbnails/"):
